@@ -432,6 +432,76 @@ def _task_incremental(task):
     return res
 
 
+def _task_hierarchy(task):
+    """objects of a class hierarchy (each level adding an interface) and a
+    plain DBusObject, introspected in every order: each XML lists exactly
+    the interfaces of the object's class and its bases"""
+    quick = task
+    from txdbus import introspection as X, objects as O
+    res = core.Result()
+    defs = [d for i, d in enumerate(definitions(quick)) if i % 97 == 0
+            and (d['methods'] or d['signals'])][:3]
+    std = {'org.freedesktop.DBus.Properties',
+           'org.freedesktop.DBus.Introspectable',
+           'org.freedesktop.DBus.Peer',
+           'org.freedesktop.DBus.ObjectManager'}
+    for order in itertools.permutations(range(4)):
+        res.count('states')
+        res.count('evaluations')
+        res.count('nontrivial')
+        with fakes.KnownInterfaces():
+            ifaces = [build_iface(d) for d in defs]
+
+            class Base(O.DBusObject):
+                dbusInterfaces = [ifaces[0]]
+
+            class Mid(Base):
+                dbusInterfaces = [ifaces[1]]
+
+            class Leaf(Mid):
+                dbusInterfaces = [ifaces[2]]
+            objs = [(O.DBusObject('/plain'), []), (Base('/base'), [0]),
+                    (Mid('/mid'), [0, 1]), (Leaf('/leaf'), [0, 1, 2])]
+            for k in order:
+                res.count('transitions')
+                obj, want_idx = objs[k]
+                path = obj.getObjectPath()
+                rep = {'hierarchy': list(order)}
+                try:
+                    xml = X.generateIntrospectionXML(path, {path: obj})
+                    root = ET.fromstring(xml[xml.index('<node'):])
+                    got = sorted(x.get('name')
+                                 for x in root.findall('interface')
+                                 if x.get('name') not in std)
+                    want = sorted(defs[i]['name'] for i in want_idx)
+                    if got != want:
+                        res.violation(
+                            '%s/hierarchy/%s' % (PROP, 'missing' if set(want)
+                                                 - set(got) else 'extra'),
+                            'objects introspected in the order %r (0 plain '
+                            'DBusObject, 1 base, 2 middle, 3 leaf class): '
+                            'the XML of %s lists %r, its classes declare %r'
+                            % (list(order), path, got, want), rep, size=1)
+                        continue
+                    parsed = X.getInterfacesFromXML(xml, True)
+                    for i in want_idx:
+                        pi = [x for x in parsed if x.name == defs[i]['name']]
+                        if len(pi) != 1 or describe(pi[0]) != \
+                                expected(defs[i]):
+                            res.violation(
+                                '%s/hierarchy/parsed' % PROP,
+                                'order %r: interface %s of %s did not come '
+                                'back as declared' % (list(order),
+                                                      defs[i]['name'], path),
+                                rep, size=1)
+                except Exception as e:
+                    res.violation('%s/hierarchy/raises-%s'
+                                  % (PROP, type(e).__name__),
+                                  'order %r, %s: %r' % (list(order), path, e),
+                                  rep, size=1)
+    return res
+
+
 def run(ctx):
     pool = sig_pool(ctx.quick)
     ctx.rule = (
@@ -452,7 +522,9 @@ def run(ctx):
         'once, known ones identical iff no replacement. Definitions built '
         'incrementally: every sequence of 2-4 steps (5 thorough, sampled) '
         'over adding / re-declaring / deleting methods, signals and '
-        'properties, with the XML generated and parsed after every step'
+        'properties, with the XML generated and parsed after every step. A '
+        'three-level class hierarchy (each level adding an interface) and a '
+        'plain DBusObject introspected in all 24 orders'
         % (len(pool), 2 if ctx.quick else 3))
     ctx.assumptions = ['the notification mode after parsing is not compared '
                        '(not in the statement)']
@@ -460,11 +532,15 @@ def run(ctx):
     ctx.map(_task_single, [(ctx.quick, i, n) for i in range(n)])
     ctx.map(_task_multi, [(ctx.quick, i, n) for i in range(n)])
     ctx.map(_task_incremental, [(ctx.quick, i, n) for i in range(n)])
+    ctx.map(_task_hierarchy, [ctx.quick])
     ctx.bounds = {'signature_pool': len(pool)}
 
 
 def replay(data):
     res = core.Result()
+    if 'hierarchy' in data:
+        res = _task_hierarchy(False)
+        return [(s, v['what']) for s, v in res.violations.items()]
     if 'incremental' in data:
         res = _task_incremental((False, 0, 1))
         return [(s, v['what']) for s, v in res.violations.items()]
